@@ -14,6 +14,14 @@ from harness import axmlgen, axmlwriter as W
 from harness.fw import REPO, Check, Driver
 
 A = W.NS_ANDROID
+# the functions Model/Manifest.lean transliterates (a changed AST escalates the search, it is not a verdict)
+PINS = [("androguard/core/apk/__init__.py", "APK._apk_analysis"), ("androguard/core/apk/__init__.py", "APK._format_value"), ("androguard/core/apk/__init__.py", "APK.get_all_attribute_value"), ("androguard/core/apk/__init__.py", "APK.get_attribute_value"),
+        ("androguard/core/apk/__init__.py", "APK.get_value_from_tag"), ("androguard/core/apk/__init__.py", "APK.find_tags"), ("androguard/core/apk/__init__.py", "APK.find_tags_from_xml"), ("androguard/core/apk/__init__.py", "APK.is_tag_matched"),
+        ("androguard/core/apk/__init__.py", "APK._get_permission_maxsdk"), ("androguard/core/apk/__init__.py", "APK.get_main_activities"), ("androguard/core/apk/__init__.py", "APK.get_main_activity"),
+        ("androguard/core/apk/__init__.py", "APK.get_activities"), ("androguard/core/apk/__init__.py", "APK.get_services"), ("androguard/core/apk/__init__.py", "APK.get_receivers"), ("androguard/core/apk/__init__.py", "APK.get_providers"),
+        ("androguard/core/apk/__init__.py", "APK.get_libraries"), ("androguard/core/apk/__init__.py", "APK.get_features"), ("androguard/core/apk/__init__.py", "APK.get_permissions"), ("androguard/core/apk/__init__.py", "APK.get_package"),
+        ("androguard/core/apk/__init__.py", "APK.get_androidversion_code"), ("androguard/core/apk/__init__.py", "APK.get_androidversion_name"), ("androguard/core/apk/__init__.py", "APK.get_min_sdk_version"),
+        ("androguard/core/apk/__init__.py", "APK.get_target_sdk_version"), ("androguard/core/apk/__init__.py", "APK.get_max_sdk_version"), ("androguard/core/apk/__init__.py", "APK.get_effective_target_sdk_version")]
 CORPUS = os.path.join(os.path.dirname(os.path.dirname(os.path.dirname(os.path.abspath(__file__)))), "corpus", "C31")
 MAIN, LAUNCHER = "android.intent.action.MAIN", "android.intent.category.LAUNCHER"
 
@@ -190,24 +198,95 @@ def oracle(m):
 
 
 # ------------------------------------------------------------------ the real code
-def observe(apk_bytes):
+def open_apk(apk_bytes):
     from androguard.core.apk import APK
     try:
-        a = APK(apk_bytes, raw=True)
+        return APK(apk_bytes, raw=True), None
     except Exception as e:  # noqa
         return None, "exc " + type(e).__name__
 
+
+def snapshot(a):
+    """the judged queries on an APK object (none of them is supposed to change the object)"""
     def g(f):
         try:
             return f()
         except Exception as e:  # noqa
             return ("!", type(e).__name__)
-    obs = {"pkg": g(a.get_package), "vc": g(a.get_androidversion_code), "vn": g(a.get_androidversion_name),
-           "perms": g(a.get_permissions), "uses": g(lambda: a.uses_permissions), "act": g(a.get_activities), "svc": g(a.get_services),
-           "rcv": g(a.get_receivers), "prv": g(a.get_providers), "lib": g(a.get_libraries), "feat": g(a.get_features),
-           "mains": g(lambda: sorted(a.get_main_activities())), "main": g(a.get_main_activity), "min": g(a.get_min_sdk_version),
-           "target": g(a.get_target_sdk_version), "max": g(a.get_max_sdk_version), "eff": g(a.get_effective_target_sdk_version)}
-    return obs, None
+    return {"pkg": g(a.get_package), "vc": g(a.get_androidversion_code), "vn": g(a.get_androidversion_name),
+            "perms": g(lambda: list(a.get_permissions())), "uses": g(lambda: [list(x) for x in a.uses_permissions]),
+            "act": g(a.get_activities), "svc": g(a.get_services),
+            "rcv": g(a.get_receivers), "prv": g(a.get_providers), "lib": g(a.get_libraries), "feat": g(a.get_features),
+            "mains": g(lambda: sorted(a.get_main_activities())), "main": g(a.get_main_activity), "min": g(a.get_min_sdk_version),
+            "target": g(a.get_target_sdk_version), "max": g(a.get_max_sdk_version), "eff": g(a.get_effective_target_sdk_version)}
+
+
+def observe(apk_bytes):
+    a, err = open_apk(apk_bytes)
+    if err:
+        return None, err
+    return snapshot(a), None
+
+
+# ------------------------------------------------------------------ histories of read-only queries on one object
+# queries that have nothing to do with the manifest (archive, signatures, DEX): not part of the history
+NOT_MANIFEST = ("get_files", "get_raw", "get_dex", "get_all_dex", "get_file", "get_certificate", "get_public_keys", "get_signature",
+                "is_signed", "get_filename", "is_multidex", "get_hash_algorithm")
+# queries whose result is a fresh container on the unchanged code: a caller may do with it what it likes
+FRESH = ("get_activities", "get_services", "get_receivers", "get_providers", "get_libraries", "get_features", "get_main_activities",
+         "get_activity_aliases", "get_declared_permissions", "get_requested_third_party_permissions", "get_requested_aosp_permissions",
+         "get_uses_implied_permission_list")
+
+
+def readonly_queries():
+    """every public `get_*` / `is_*` method of APK that can be called without arguments (reflection), manifest-related"""
+    import inspect
+    from androguard.core.apk import APK
+    out = []
+    for name, fn in inspect.getmembers(APK, inspect.isfunction):
+        if not (name.startswith("get_") or name.startswith("is_")) or name.startswith(NOT_MANIFEST):
+            continue
+        params = list(inspect.signature(fn).parameters.values())[1:]
+        if any(p.default is inspect.Parameter.empty and p.kind in (p.POSITIONAL_ONLY, p.POSITIONAL_OR_KEYWORD, p.KEYWORD_ONLY) for p in params):
+            continue
+        out.append(name)
+    return sorted(out)
+
+
+def call_query(a, name, m, rng, mutate):
+    """one history step: call the query like a caller would (guarded), optionally spoil the returned container"""
+    try:
+        if name == "get_intent_filters@":
+            acts = [x["name"] for x in m["activities"]] or ["none"]
+            r = a.get_intent_filters(rng.choice(("activity", "activity-alias", "service")), rng.choice(acts))
+        else:
+            r = getattr(a, name)()
+        if mutate and name in FRESH and isinstance(r, (list, set, dict)):
+            r.clear()
+        elif r is not None and not isinstance(r, (str, bytes, int, bool, list, set, dict, tuple)) and hasattr(r, "__next__"):
+            for _ in r:          # generators are consumed
+                pass
+        return "ok"
+    except Exception as e:  # noqa
+        return "!" + type(e).__name__
+
+
+def run_history(ck, m, ax, apk, hist, case, mutate, rng):
+    """hist: list of query names. The judged queries are asked on the fresh object and after every step; since all of
+    them are read-only, each answer must be the manifest's value at every point.  Returns (#steps, failed?)."""
+    a, err = open_apk(apk)
+    if err:
+        ck.fail(case, "APK with a well-formed manifest cannot be analysed", None, "analysis", err)
+        return 0, True
+    done = []
+    if judge(ck, m, snapshot(a), None, dict(case, history=[]), where="on the fresh object"):
+        return 0, True
+    for name in hist:
+        outcome = call_query(a, name, m, rng, mutate)
+        done.append(name)
+        if judge(ck, m, snapshot(a), None, dict(case, history=list(done)), where="after " + " ".join(done[-3:]) + " (%s)" % outcome):
+            return len(done), True
+    return len(done), False
 
 
 def canon(obs):
@@ -235,10 +314,10 @@ def canon(obs):
         one(obs["target"]), one(obs["max"]), one(obs["eff"])))
 
 
-def judge(ck, m, obs, err, case):
+def judge(ck, m, obs, err, case, where=""):
     o = oracle(m)
     if err is not None:
-        ck.fail(case, "APK with a well-formed manifest cannot be analysed", None, "analysis", err); return
+        ck.fail(case, "APK with a well-formed manifest cannot be analysed", None, "analysis", err); return True
     bad = []
 
     def want(key, exp, got, as_sorted=False):
@@ -271,7 +350,10 @@ def judge(ck, m, obs, err, case):
     want("effective target SDK", o["eff"], obs["eff"])
     if bad:
         key, exp, got = bad[0]
-        ck.fail(case, f"query '{key}' does not report what the manifest declares", None, repr(exp)[:400], repr(got)[:400])
+        ck.fail(case, f"query '{key}' does not report what the manifest declares" + (" " + where if where else ""), None,
+                repr(exp)[:400], repr(got)[:400])
+        return True
+    return False
 
 
 # ------------------------------------------------------------------ hostile manifests (correspondence only)
@@ -312,6 +394,8 @@ def gen_hostile(rng, ids):
 
 def run(ck: Check):
     rng = ck.rng
+    ck.pins_changed(PINS)
+    big = (not ck.quick) or ck.escalated
     ck.run_gen("axmlconsts")
     ck.prove(exes=["drv_C31"])
     drv = Driver("drv_C31")
@@ -348,7 +432,9 @@ def run(ck: Check):
         ck.cover(evaluations=1)
 
     n = 700 if ck.quick else 40000
-    pairs, distinct, samples = [], [], []
+    if ck.quick and ck.escalated:
+        n = 3000
+    pairs, distinct, samples, built = [], [], [], []
     dist = {"models": 0, "permissions": 0, "components": 0, "with_main": 0, "multi_main": 0, "no_uses_sdk": 0, "utf8": 0}
     for i in range(n):
         m = gen_model(rng)
@@ -362,6 +448,7 @@ def run(ck: Check):
         case = {"stream": "models", "index": i, "seed": ck.seed, "model": m, "utf8": utf8}
         judge(ck, m, obs, err, case)
         pairs.append((ax, err if err else canon(obs)))
+        built.append((m, utf8, ax, apk))
         o = oracle(m)
         dist["models"] += 1; dist["permissions"] += len(m["uses_permissions"]); dist["utf8"] += utf8
         dist["components"] += len(m["activities"]) + len(m["services"]) + len(m["receivers"]) + len(m["providers"])
@@ -372,6 +459,34 @@ def run(ck: Check):
             samples.append({"model": {k: m[k] for k in ("package", "uses_permissions", "uses_sdk")}, "observed": canon(obs)[:300] if obs else err})
     correspond("manifest-models", pairs)
     ck.cover(evaluations=n, distinct=distinct, samples=samples, dist=dist)
+
+    # ---- histories: every read-only query of APK that touches the manifest, in a seeded random order, twice, on ONE object;
+    # the judged queries are asked on the fresh object and after every step and must always report the manifest's values
+    queries = readonly_queries() + ["get_intent_filters@"]
+    n_hist = (5000 if not ck.quick else 1000) if big else 250
+    hd = {"history_objects": 0, "history_steps": 0, "history_with_label": 0, "history_no_label_with_launcher": 0,
+          "history_several_launchers": 0, "history_mutating": 0, "history_queries": len(queries)}
+    hfail = 0
+    for i, (m, utf8, ax, apk) in enumerate(built[:n_hist]):
+        hist = queries + queries
+        rng.shuffle(hist)
+        mutate = i % 2 == 1
+        case = {"stream": "history", "index": i, "seed": ck.seed, "model": m, "utf8": utf8, "axml_hex": ax.hex(), "mutate_returned": mutate}
+        steps, failed = run_history(ck, m, ax, apk, hist, case, mutate, rng)
+        o = oracle(m)
+        labelled = b"l\x00a\x00b\x00e\x00l\x00" in ax or b"label" in ax
+        hd["history_objects"] += 1; hd["history_steps"] += steps; hd["history_with_label"] += labelled
+        hd["history_no_label_with_launcher"] += (not labelled) and bool(o["mains"])
+        hd["history_several_launchers"] += len(o["mains"]) > 1; hd["history_mutating"] += mutate
+        hfail += failed
+        if hfail >= 5:
+            break
+    ck.cover(evaluations=hd["history_steps"], dist=hd,
+             samples=[{"history_queries": queries[:60]}])
+    ck.notes.append("history stream: the Lean model's queries are pure functions of the XML tree, hence trivially independent of the call "
+                    "history; the real object is asked every reflected get_*/is_* query twice in random order with the judged queries "
+                    "after each step; on odd objects the containers returned by queries that build a fresh container on the unchanged "
+                    "code are cleared by the caller")
 
     pairs = []
     kinds = {}
@@ -416,6 +531,22 @@ def run(ck: Check):
 
 def replay(ck: Check, rp):
     c = rp.get("case") or rp.get("first_divergence", {})
+    if "history" in c and "axml_hex" in c:
+        import random
+        m = c["model"]
+        m["uses_permissions"] = [tuple(x) for x in m["uses_permissions"]]
+        for a in m["activities"]:
+            a["filters"] = [tuple(f) for f in a["filters"]]
+        apk = make_zip([("AndroidManifest.xml", bytes.fromhex(c["axml_hex"]), True)])
+        a, err = open_apk(apk)
+        print("history :", c["history"], "(returned containers cleared)" if c.get("mutate_returned") else "")
+        print("oracle  :", oracle(m))
+        print("fresh   :", err or snapshot(a))
+        for name in c["history"]:
+            print("  call", name, "->", call_query(a, name, m, random.Random(0), c.get("mutate_returned")))
+        print("after   :", err or snapshot(a))
+        print("expected:", rp.get("expected"), "\nobserved:", rp.get("observed"))
+        return 0
     if "model" in c:
         import random
         sysattrs = axmlgen.sys_attrs(REPO)
